@@ -6,6 +6,7 @@ IR nodes (dicts):  prim{name,lt?,prec?,scale?} record{full,ns,fields[{name,type,
                    enum{full,ns,syms,hasdef,default} fixed{full,ns,size,lt?..} array{items} map{values} union{br} ref{full}
 """
 import datetime
+import types
 import decimal
 import math
 import struct
@@ -47,6 +48,8 @@ class Gen:
         self.json_safe = False
         self._forced = None
         self._reserved = None
+        self.mapping_views = False     # maps now and then offered as read-only mapping views (validation / writing checks only)
+        self.unknown_logical = True    # now and then an annotation no implementation knows ("x-custom"): to be ignored
         self.overlap_bias = 0.07       # probability that a union is one of records with nested field sets
         self.big_unions = True         # now and then a union of 66-80 branches
         self.error_records = True      # now and then a record is declared with "type": "error" (same thing everywhere but in the JSON grammar)
@@ -196,6 +199,8 @@ class Gen:
                     t, dv = {"k": "map", "values": {"k": "map", "values": lt}}, {"o": {"i": lv[0], "j": lv[1]}}
                 else:
                     t, dv = {"k": "array", "items": {"k": "array", "items": {"k": "array", "items": lt}}}, [[[lv[0]], [lv[1], lv[2]]]]
+                if r.random() < 0.4:
+                    t = {"k": "union", "br": [t, {"k": "prim", "name": "null"}]}      # the default belongs to the first branch
                 d["fields"].append(fld("nest", t, True, dv))
             else:
                 d["fields"].append(fld(sl, self.typ(1, ns)))
@@ -316,6 +321,8 @@ class Gen:
                 d["lt"] = "uuid"
             elif name == "bytes":
                 self.add_decimal(d, None)
+        elif self.unknown_logical and name in ("int", "long", "string", "bytes", "double") and r.random() < 0.04:
+            d["ult"] = r.choice(["x-custom", "varchar", "timestamp-nanos"])
         return d
 
     def add_decimal(self, d, size):
@@ -356,12 +363,15 @@ class Gen:
         names = r.sample(["a", "b", "c", "id", "x1", "value"], 4)
         types = {n: {"k": "prim", "name": r.choice(["int", "long", "string", "double", "boolean"])} for n in names}
         br = []
+        as_error = self.error_records and not self.json_safe and r.random() < 0.3
         for k in range(r.choice([2, 3])):
             full = self.full(ns, self.fresh("Ov"))
             fields = [{"name": n, "type": dict(types[n]), "hasdef": False, "default": None, "aliases": []} for n in names[:2 + k]]
             if r.random() < 0.3:
                 r.shuffle(fields)
             d = {"k": "record", "full": full, "ns": ns, "aliases": [], "fields": fields}
+            if as_error:
+                d["error"] = True
             self.defs[full] = d
             br.append(d)
         if r.random() < 0.4:
@@ -484,6 +494,8 @@ class Gen:
                     if t["scale"] or r.random() < 0.5:
                         d["scale"] = t["scale"]
                 return d
+            if t.get("ult"):
+                return {"type": t["name"], "logicalType": t["ult"], "maxLength": 7}
             return t["name"] if (plain or r.random() < 0.85) else {"type": t["name"]}
         if k == "ref":
             tns = self.defs[t["full"]]["ns"]
@@ -666,7 +678,10 @@ class Gen:
                 keys.add(r.choice(STR_POOL) if r.random() < 0.5 else "k%d" % r.randint(0, 10 ** 6))
             keys = list(keys)
             r.shuffle(keys)
-            return {key: self.datum(t["values"], depth + 1, hints, omit) for key in keys}
+            m = {key: self.datum(t["values"], depth + 1, hints, omit) for key in keys}
+            if self.mapping_views and r.random() < 0.12:
+                return types.MappingProxyType(m)          # a Mapping that is not a dict
+            return m
         if k == "record":
             return self.record_datum(t, depth, hints, omit)
         if k == "union":
@@ -750,8 +765,8 @@ class Gen:
             return r.choice(INT_POOL) if x < 0.6 else r.randint(-2 ** 31, 2 ** 31 - 1)
         if n == "long":
             x = r.random()
-            if x < 0.08:
-                return r.choice([2 ** 63 - 1, -2 ** 63])
+            if x < 0.15:
+                return r.choice([2 ** 63 - 1, 2 ** 63 - 1, -2 ** 63])
             if x < 0.6:
                 return r.choice(LONG_POOL)
             k = r.randint(1, 9)
